@@ -355,6 +355,16 @@ func (s *Server) handlePlain(conn net.Conn, id, resp string, respProvided bool) 
 		return
 	}
 
+	// The username is echoed into the reply line: a TAB, CR or LF in it would add
+	// fields or whole lines (for example an OK line after a failure) to the reply
+	if strings.ContainsAny(username, "\t\r\n") {
+		log.Printf("Invalid characters in PLAIN username")
+		response := fmt.Sprintf("FAIL\t%s\treason=Invalid credentials format\n", id)
+		_, _ = conn.Write([]byte(response))
+		log.Printf("SASL sent: %s", strings.TrimSpace(response))
+		return
+	}
+
 	log.Printf("PLAIN authentication attempt for user: %s", username)
 
 	// Authenticate via external API
